@@ -26,13 +26,13 @@ EXPLANATION = (
     "of (count, n, degree, 0, threshold) x loaded/unloaded and the executed statements are compared with the "
     "trigger predicate of the specification (exhaustive over orderings); CFG must-precede rules for "
     "deactivate/activate_with/assert/trigger order; origin rules for operator arguments, iteration direction, "
-    "heap key, divisor; comparator table"
+    "heap key, divisor; comparator table; who-may-call: a consequent is modified only through Rule.trigger (or under the rule's enabled flag)"
 )
 ASSUMPTIONS = [
     "scalar activation degrees (batches are rejected by the O-vec rule for every method but General)",
     "heapq is a min-heap over tuples compared lexicographically; operator.lt/le/eq/ne/ge/gt have their Python meaning",
 ]
-FLOORS = {"O-all": 7, "O-dea": 7, "O-seq": 7, "P2": 14, "O-vec": 6, "G": 9, "K1": 2, "T3": 6, "U1": 1, "DIR": 7}
+FLOORS = {"O-all": 7, "O-dea": 7, "O-seq": 7, "P2": 14, "O-vec": 6, "G": 9, "K1": 2, "T3": 6, "U1": 2, "DIR": 7}
 
 VECTOR_INCAPABLE = ["First", "Last", "Highest", "Lowest", "Proportional", "Threshold"]
 
@@ -217,6 +217,9 @@ def describe_order(env: dict[str, Any], roles: list[str], bools: list[str]) -> s
 
 def run(check: Check) -> None:
     p = check.program
+    from . import wiring
+
+    wiring.p4_who_modifies(check, rule="U1")
     for cls in ACTIVATIONS:
         a = Activate(check, cls)
         common_rules(a)
